@@ -53,12 +53,14 @@ NoSeed == [secret |-> <<>>, birthday |-> 0, features |-> 0]
 
 Failure(st) == [st |-> st, lang |-> 0, seed |-> NoSeed]
 
+\* once a single language k has recognised all tokens, failures remember it (lang = k)
+FailureIn(st, k) == [st |-> st, lang |-> k, seed |-> NoSeed]
 TailSeed(k, seed, m) ==
-    IF ~Supported(seed.features, m) THEN Failure(StUnsupported)
+    IF ~Supported(seed.features, m) THEN FailureIn(StUnsupported, k)
     ELSE [st |-> StOK, lang |-> k, seed |-> seed]
 TailOf(k, w, m, allocFailed) ==
-    IF ~Valid(w) THEN Failure(StChecksum)
-    ELSE IF allocFailed THEN Failure(StMemory)
+    IF ~Valid(w) THEN FailureIn(StChecksum, k)
+    ELSE IF allocFailed THEN FailureIn(StMemory, k)
     ELSE TailSeed(k, Unwords(w), m)
 
 TailOutcome(k, toks, coin, m, allocFailed) ==
